@@ -514,6 +514,9 @@ func (r *Run) stateHash() string {
 	for _, d := range r.Sched.Obs.Decisions {
 		parts = append(parts, fmt.Sprintf("d:%d:%s:%s:%s:%s:%v", d.Cycle, d.Action, d.Kind, d.Pod, d.Node, d.GPUGroups))
 	}
+	if os.Getenv("KAISIM_DET_DUMP") != "" {
+		r.Res.Probes["zz_state_parts:"+strings.Join(parts, "|")] = 1
+	}
 	return hashStrings(parts)
 }
 
